@@ -97,9 +97,11 @@ func c08(args []string) {
 		var errs []string
 		// wavelength: defined by the documented table
 		var lambda *big.Rat
-		if f != 0 && wavelength != 0 {
+		if f != 0 {
+			// a documented frequency: the wavelength is defined and is c/f (a zero or infinite wavelength here
+			// would silently take the cell out of the property's scope)
 			lambda = new(big.Rat).Quo(c, big.NewRat(f*1000, 1))
-			if !closeTo(wavelength, lambda) {
+			if wavelength == 0 || math.IsInf(wavelength, 0) || math.IsNaN(wavelength) || !closeTo(wavelength, lambda) {
 				errs = append(errs, "wavelength")
 			}
 		} else if wavelength != 0 && !math.IsInf(wavelength, 0) && !math.IsNaN(wavelength) {
